@@ -13,7 +13,7 @@ from tfv.props import c01, c02, c14
 ID = "C17"
 LEVEL = "exploration"
 WORKERS = {"quick": 8, "thorough": 16}
-CASES = {"quick": 56, "thorough": 1600}  # co-residence scenarios (2-4 bundles each; one spawned process per bundle)
+CASES = {"quick": 240, "thorough": 6000}  # co-residence scenarios (2-4 bundles each; one spawned process per bundle)
 BUDGET = {"quick": 50, "thorough": 560}
 RULE = (
     "history = 2-4 generated bundles (schema + resolvers, type resolvers, custom scalars, directives, subscription sources) drawn from "
@@ -21,7 +21,9 @@ RULE = (
     "interleaving of all their registration steps (one step per decorator application) and cooking steps (a bundle is cooked after its "
     "own registrations; other bundles may register before or after). Oracle = differential: the probe requests of each bundle (generated "
     "data queries, an introspection query, a subscription when the bundle has one) answered by the co-resident engine equal the answers of "
-    "the same bundle built alone in a freshly spawned process. Distinct = SHA-1 of (bundles, step order); non-trivial = some name is "
+    "the same bundle built alone in a fresh process (forked from a zygote that never registered or executed anything). A third of the "
+    "bundles are siblings of an earlier one - identical SDL, or the same names with one interface implementation / union member removed; custom "
+    "scalars, directives and resolvers of every bundle behave differently under the same names - and are also probed with that bundle's very request texts. Distinct = SHA-1 of (bundles, step order); non-trivial = some name is "
     "defined differently in >= 2 bundles and their registration steps were interleaved (not bundle after bundle)."
 )
 ASSUMPTIONS = ["responses compared as canonical JSON; harness values have address-free reprs"]
@@ -84,8 +86,18 @@ def solo_worker(bundle):
     return probe(h, bundle)
 
 
+_PRISTINE = {"z": None}
+
+
 def solo(bundle):
-    """fresh interpreter (subprocess): nothing but this bundle has ever been registered there"""
+    """a process in which nothing but this bundle has ever been registered or executed: a child forked from a zygote that
+    was itself forked before this worker did anything (tfv/pristine.py); without a zygote, a freshly spawned interpreter"""
+    if _PRISTINE["z"] is not None:
+        return core.jsonable(_PRISTINE["z"].call("tfv.props.c17", "solo_worker", bundle))
+    return solo_spawned(bundle)
+
+
+def solo_spawned(bundle):
     import json
     import subprocess
     import sys
@@ -101,19 +113,50 @@ def solo(bundle):
     raise core.HarnessError("solo process failed: %s %s" % (p.stdout[-2000:], p.stderr[-2000:]))
 
 
+def sibling(c, schema):
+    """a near-copy of another bundle's schema: same names, one thing defined differently"""
+    kind = c.weighted([(5, "identical_sdl"), (5, "membership")])
+    T = schema["types"]
+    if kind == "membership":
+        roots = set(schema["roots"].values())
+        cands = []
+        for tn, td in T.items():
+            if td["kind"] == "OBJECT" and tn not in roots:
+                for i in td.get("interfaces") or ():
+                    if sum(1 for o in T.values() if o["kind"] == "OBJECT" and i in (o.get("interfaces") or ())) >= 2:
+                        cands.append(("implements", tn, i))
+            if td["kind"] == "UNION" and len(td["members"]) >= 2:
+                for m in td["members"]:
+                    cands.append(("member", tn, m))
+        if cands:
+            what, a, b = c.choice(cands)
+            if what == "implements":
+                T[a]["interfaces"] = [i for i in T[a]["interfaces"] if i != b]
+            else:
+                T[a]["members"] = [m for m in T[a]["members"] if m != b]
+    return kind
+
+
 def gen_bundle(c, index, clone_of=None):
+    variant = None
     if clone_of is not None:
-        # same SDL text as another bundle (different behaviour and data)
+        # same SDL text as another bundle (different behaviour and data), or the same names with one definition changed
         schema, plan = copy.deepcopy(clone_of["schema"]), copy.deepcopy(clone_of["plan"])
+        variant = sibling(c, schema)
         sub = bool(schema["roots"].get("subscription"))
     else:
         sub = c.maybe(40)
         schema, plan = c01.build_schema(c, {"subscription": sub, "max_objects": 3})
         plan["sdl_ext_dirs"] = c.maybe(50)
     plan["directive_tag"] = "B%d" % index
+    plan["scalar_tag"] = "B%d" % index  # every bundle implements its custom scalars differently (input side)
     plan["default_fields"] = [] if sub else plan["default_fields"]
     requests = []
-    for _ in range(3):
+    if clone_of is not None:
+        # the very texts (and variables, data) the other bundle is probed with: byte-identical requests on two engines.
+        # Whether they are valid here does not matter: the oracle is this bundle answering the same text alone.
+        requests = [copy.deepcopy(r) for r in clone_of["requests"][-3:]]
+    for _ in range(3 if clone_of is None else 2):
         spec, _ = c01.build_request(c, schema, plan, {"max_nodes": 8, "op_types": ["query"]})
         tree, ex, expected, root = c01.reference(spec, c)
         requests.append({"doc": spec["doc"], "op": spec["op"], "variables": spec["variables"], "tree": spec["tree"], "root": root})
@@ -121,7 +164,7 @@ def gen_bundle(c, index, clone_of=None):
     if sub:
         s = c14.build_request(c, schema, plan)
         subs.append({k: s[k] for k in ("schema", "doc", "op", "variables", "tree", "events", "faults", "decoy")})
-    return {"schema": schema, "plan": plan, "requests": requests, "subscriptions": subs, "engine_kwargs": {}}
+    return {"schema": schema, "plan": plan, "requests": requests, "subscriptions": subs, "engine_kwargs": {}, "variant": variant}
 
 
 def overlapping_names(bundles):
@@ -213,15 +256,19 @@ def case(c, stats):
     run_scenario(spec)
     nt = overlapping_names(bundles) > 0 and interleaved([tuple(x) for x in order])
     stats.case({"b": [(b["schema"], b["plan"]) for b in bundles], "o": order}, nt,
-               ["bundles:%d" % n, "identical_sdl:%s" % (len({canon(b["schema"]) for b in bundles}) < n), "with_subscription:%d" % sum(1 for b in bundles if b["subscriptions"]), "redefined_names:%d" % min(overlapping_names(bundles), 9)],
+               ["bundles:%d" % n, "identical_sdl:%s" % (len({canon(b["schema"]) for b in bundles}) < n), "with_subscription:%d" % sum(1 for b in bundles if b["subscriptions"]), ] + sorted({"sibling:" + b["variant"] for b in bundles if b.get("variant")}) + [ "redefined_names:%d" % min(overlapping_names(bundles), 9)],
                {"bundles": [{"types": list(b["schema"]["types"]), "probes": len(b["requests"]) + 1 + len(b["subscriptions"])} for b in bundles], "order": order})
 
 
 def run_worker(seed, tier, index, nworkers):
+    from tfv.pristine import Pristine
+
+    _PRISTINE["z"] = Pristine()  # before this process registers or executes anything
     stats = core.Stats(max_samples=2)
     scale = float(os.environ.get("TFV_SCALE", "1"))
     n = max(1, int(CASES[tier] * scale / nworkers))
     v = core.run_property(case, seed, n, stats, budget_s=BUDGET[tier], shrink=False)
+    _PRISTINE["z"].close()
     out = stats.export()
     out["violations"] = [{"spec": core.jsonable(v.spec), "message": v.message}] if v else []
     return out
@@ -229,7 +276,7 @@ def run_worker(seed, tier, index, nworkers):
 
 def replay(spec):
     spec = dict(spec)
-    spec["solo"] = [solo(b) for b in spec["bundles"]]
+    spec["solo"] = [solo_spawned(b) for b in spec["bundles"]]
     run_scenario(spec)
 
 
